@@ -1,4 +1,5 @@
-From Coq Require Import NArith Lia ZArith.
+From Coq Require Import NArith Lia ZArith Bool.
+Local Open Scope bool_scope.
 From Coq Require Import ZifyN ZifyBool.
 From DV Require Import Base.Outcome C17.Gen C17.Model.
 Local Open Scope N_scope.
@@ -186,4 +187,109 @@ Proof. vm_compute. auto. Qed.
 Example cmp_none_example :
   serial_partial_cmp 3000000000 852516352 = Ok None /\
   serial_partial_cmp 852516352 3000000000 = Ok None.
+Proof. vm_compute. auto. Qed.
+
+(* ---- the call sites ------------------------------------------------------ *)
+Lemma serial_le_spec a b : u32 a -> u32 b ->
+  serial_le a b = (wdiff a b <? 2147483648).
+Proof.
+  intros Ha Hb. unfold serial_le. rewrite cmp_closed_form by assumption.
+  pose proof (wdiff_range a b Ha Hb) as R. unfold classify, M32 in *.
+  destruct (N.eqb_spec (wdiff a b) 0) as [E|E]; [rewrite E; reflexivity|].
+  destruct (N.ltb_spec (wdiff a b) 2147483648); [reflexivity|].
+  destruct (N.eqb_spec (wdiff a b) 2147483648); reflexivity.
+Qed.
+
+Lemma serial_ge_spec a b : u32 a -> u32 b ->
+  serial_ge a b = (wdiff b a <? 2147483648).
+Proof.
+  intros Ha Hb. unfold serial_ge. rewrite cmp_closed_form by assumption.
+  pose proof (wdiff_range a b Ha Hb) as R.
+  pose proof (wdiff_zero a b Ha Hb) as Z.
+  assert (F : wdiff a b <> 0 -> wdiff b a = M32 - wdiff a b) by (apply wdiff_flip; assumption).
+  unfold classify, M32 in *.
+  destruct (N.eqb_spec (wdiff a b) 0) as [E|E].
+  - assert (a = b) by (apply Z; exact E). subst.
+    replace (wdiff b b) with 0 by (unfold wdiff, M32; unfold u32, M32 in Hb; lia). reflexivity.
+  - rewrite (F E).
+    destruct (N.ltb_spec (wdiff a b) 2147483648);
+      [destruct (N.ltb_spec (4294967296 - wdiff a b) 2147483648); [lia|reflexivity]|].
+    destruct (N.eqb_spec (wdiff a b) 2147483648);
+      destruct (N.ltb_spec (4294967296 - wdiff a b) 2147483648); try reflexivity; lia.
+Qed.
+
+Lemma serial_lt_spec a b : u32 a -> u32 b ->
+  serial_lt a b = (0 <? wdiff a b) && (wdiff a b <? 2147483648).
+Proof.
+  intros Ha Hb. unfold serial_lt. rewrite cmp_closed_form by assumption.
+  unfold classify.
+  destruct (N.eqb_spec (wdiff a b) 0) as [E|E]; [rewrite E; reflexivity|].
+  destruct (N.ltb_spec (wdiff a b) 2147483648);
+    [destruct (N.ltb_spec 0 (wdiff a b)); [reflexivity|lia]|].
+  destruct (N.eqb_spec (wdiff a b) 2147483648); rewrite Bool.andb_false_r; reflexivity.
+Qed.
+
+(* the validator accepts a signature exactly when now lies in the RFC 1982
+   window [inception, expiration]: inception at most 2^31-1 behind, expiration
+   at most 2^31-1 ahead (RFC 4034 3.1.5) *)
+Lemma sig_time_ok_spec now i e : u32 now -> u32 i -> u32 e ->
+  sig_time_ok now i e = (wdiff now e <? 2147483648) && (wdiff i now <? 2147483648).
+Proof.
+  intros. unfold sig_time_ok. cbv [sig_time_uses_serial_order].
+  rewrite serial_le_spec, serial_ge_spec by assumption. reflexivity.
+Qed.
+
+Lemma wdiff_shift a b k : u32 a -> u32 b ->
+  wdiff ((a + k) mod M32) ((b + k) mod M32) = wdiff a b.
+Proof. unfold u32, wdiff, M32. intros. lia. Qed.
+
+(* ... hence the verdict is the same wherever the three times sit relative to
+   the 2^32 wrap-around *)
+Lemma sig_time_shift_invariant now i e k : u32 now -> u32 i -> u32 e ->
+  sig_time_ok ((now + k) mod M32) ((i + k) mod M32) ((e + k) mod M32) = sig_time_ok now i e.
+Proof.
+  intros Hn Hi He.
+  assert (u32 ((now + k) mod M32)) by (unfold u32, M32; lia).
+  assert (u32 ((i + k) mod M32)) by (unfold u32, M32; lia).
+  assert (u32 ((e + k) mod M32)) by (unfold u32, M32; lia).
+  rewrite !sig_time_ok_spec by assumption. rewrite !wdiff_shift by assumption. reflexivity.
+Qed.
+
+Lemma ixfr_up_to_date_spec q z : u32 q -> u32 z ->
+  ixfr_client_up_to_date q z = (wdiff z q <? 2147483648).
+Proof.
+  intros. unfold ixfr_client_up_to_date. cbv [ixfr_uptodate_is_serial_ge].
+  apply serial_ge_spec; assumption.
+Qed.
+
+Lemma ixfr_up_to_date_shift q z k : u32 q -> u32 z ->
+  ixfr_client_up_to_date ((q + k) mod M32) ((z + k) mod M32) = ixfr_client_up_to_date q z.
+Proof.
+  intros Hq Hz.
+  assert (u32 ((q + k) mod M32)) by (unfold u32, M32; lia).
+  assert (u32 ((z + k) mod M32)) by (unfold u32, M32; lia).
+  rewrite !ixfr_up_to_date_spec by assumption. rewrite wdiff_shift by assumption. reflexivity.
+Qed.
+
+(* a zone diff is accepted only when its end serial is serially after (or
+   undefined relative to) its start serial; a diff produced by bumping the
+   serial by 1 .. 2^31-1 is never rejected *)
+Lemma diff_range_accepts_bumped s n : u32 s -> 1 <= n <= 2147483647 ->
+  diff_range_rejected s ((s + n) mod M32) = false.
+Proof.
+  intros Hs Hn. unfold diff_range_rejected. cbv [diff_range_rejects_eq_or_serial_lt].
+  assert (He : u32 ((s + n) mod M32)) by (unfold u32, M32; lia).
+  rewrite serial_lt_spec by assumption.
+  assert (D : wdiff ((s + n) mod M32) s = M32 - n) by (unfold u32, wdiff, M32 in *; lia).
+  rewrite D. unfold M32.
+  destruct (N.eqb_spec s ((s + n) mod 4294967296)) as [E|E]; [unfold u32, M32 in *; lia|].
+  destruct (N.ltb_spec (4294967296 - n) 2147483648); [lia|].
+  rewrite Bool.andb_false_r. reflexivity.
+Qed.
+
+Example sig_time_wrap :
+  sig_time_ok 256 4294963200 65536 = true /\            (* inception before the wrap, now and expiration after *)
+  sig_time_ok 1790000000 0 4294967295 = false /\        (* expiration more than 2^31 ahead: serially in the past *)
+  ixfr_client_up_to_date 5 4294967290 = true /\         (* client serial 5 is newer than 0xFFFFFFFA *)
+  diff_range_rejected 4294967295 3 = false.
 Proof. vm_compute. auto. Qed.
